@@ -2707,6 +2707,7 @@ rfbProcessClientNormalMessage(rfbClientPtr cl)
 			ScaleY(cl->scaledScreen, cl->screen, Swap16IfLE(msg.pe.y)),
 			cl);
 		cl->lastPtrButtons = msg.pe.buttonMask;
+		cl->lastPtrX = -1; /* a position remembered for coalescing is older than this event: drop it */
 	    } else {
 		cl->lastPtrX = ScaleX(cl->scaledScreen, cl->screen, Swap16IfLE(msg.pe.x));
 		cl->lastPtrY = ScaleY(cl->scaledScreen, cl->screen, Swap16IfLE(msg.pe.y));
